@@ -8,6 +8,7 @@ import (
 	"context"
 	"fmt"
 	"hash/fnv"
+	"math/rand/v2"
 	"sort"
 	"sync"
 	"sync/atomic"
@@ -177,6 +178,9 @@ type pInput struct {
 	// parked writers (saturation of inputs with a small buffer): `multi` goroutines each keep
 	// sending; whenever the bubble is quiescent all of them are parked in a send, so the next
 	// `multi` receives from the channel cannot find it empty
+	isNil   bool // the input is a nil channel
+	thief   bool // a second consumer (of the harness) also receives from this channel: channels may have several readers
+	stolen  chan PItem
 	multi   int
 	mwNext  atomic.Int64
 	mwQuit  chan struct{}
@@ -264,6 +268,34 @@ func (in *pInput) endParked() {
 	close(in.ch)
 	in.closedAt.Store(1)
 	in.closeEnq = true
+}
+
+// startThief starts the second consumer: now and then it takes an item out of the channel
+// itself and hands it to the stepper, which books it as delivered elsewhere.
+func (in *pInput) startThief(abort <-chan struct{}, wg *sync.WaitGroup, seed uint64) {
+	in.stolen = make(chan PItem, 8192)
+	wg.Add(1)
+	go func() {
+		defer wg.Done()
+		r := rand.New(rand.NewPCG(seed, 4))
+		for {
+			select {
+			case <-time.After(time.Duration(1+r.IntN(40)) * time.Nanosecond):
+			case <-abort:
+				return
+			}
+			for k := r.IntN(3); k >= 0; k-- {
+				select {
+				case it, ok := <-in.ch:
+					if !ok {
+						return
+					}
+					in.stolen <- it
+				default:
+				}
+			}
+		}
+	}()
 }
 
 func (in *pInput) write(n int) {
